@@ -182,6 +182,12 @@ class FaultEngine(SingleBase):
             out, extra = w.exec_op(call)
             fp.clear()
             w.run.fault = None
+            if out == ("exc", "DoesNotTerminate"):
+                self.v({"C08", "C13"}, "liveness", "liveness:call-does-not-return:%s" % call["op"],
+                       {"call": call, "setup": prog.get("setup", []), "msg": extra.get("msg"),
+                        "fault_site": None if fp.fired is None else {"kind": fp.fired.kind, "cls": fp.fired.cls}})
+                res.stats["sites"] = fp.count
+                return
             if ob is not None:
                 w.run.observers.remove(ob)
                 with seam.passthrough():
